@@ -84,7 +84,10 @@ func (cj *CookieJar) getByHostAndPath(host, path []byte) []*fasthttp.Cookie {
 		if len(path) > 1 && len(cookie.Path()) > 1 && !bytes.HasPrefix(cookie.Path(), path) {
 			continue
 		}
-		newCookies = append(newCookies, cookie)
+		// hand out a copy: the caller may release what it gets (see Get), the jar keeps its own object
+		nc := fasthttp.AcquireCookie()
+		nc.CopyTo(cookie)
+		newCookies = append(newCookies, nc)
 	}
 
 	return newCookies
@@ -196,6 +199,7 @@ func (cj *CookieJar) dumpCookiesToReq(req *fasthttp.Request) {
 	cookies := cj.getByHostAndPath(uri.Host(), uri.Path())
 	for _, cookie := range cookies {
 		req.Header.SetCookieBytesKV(cookie.Key(), cookie.Value())
+		fasthttp.ReleaseCookie(cookie) // a copy made for this call
 	}
 }
 
